@@ -13,24 +13,53 @@ TV(n) == [k |-> "typevar", n |-> n]
 \* ---- Impl: substitute_typevars (value.py: TypeVarValue:2181, GenericValue:1146, SequenceValue:1258,
 \*      SubclassValue:1842 via SubclassValue.make, MultiValuedValue:1985 -- which re-unites the substituted
 \*      members with unite_values)
-RECURSIVE ImplSubst(_, _)
-ImplSubst(v, m) ==
+\* odd objects of harness/universe.py ODD for which callable(obj) holds
+CallableOdd == {"function", "builtin", "lambda", "class"}
+\* `bug` names a seeded mistake of the mechanism (sensitivity self-tests of SubstContexts.tla); "none" = the code as it is
+RECURSIVE ImplSubstF(_, _, _)
+ImplSubstF(v, m, bug) ==
     CASE v.k = "typevar" -> IF v.n \in DOMAIN m THEN m[v.n] ELSE v
-      [] v.k = "generic" -> Generic(v.c, [i \in 1..Len(v.args) |-> ImplSubst(v.args[i], m)])
-      [] v.k = "seq" -> SeqT(v.c, [i \in 1..Len(v.ms) |-> [many |-> v.ms[i].many, t |-> ImplSubst(v.ms[i].t, m)]])
-      [] v.k = "subclass" ->
-            LET t == ImplSubst(v.t, m)
-            IN CASE t.k = "union" -> ImplUnite([i \in 1..Len(t.ms) |-> SubclassT(t.ms[i])])
+      [] v.k = "generic" -> Generic(v.c, [i \in 1..Len(v.args) |-> ImplSubstF(v.args[i], m, bug)])
+      [] v.k = "seq" -> SeqT(v.c, [i \in 1..Len(v.ms) |-> [many |-> v.ms[i].many, t |-> ImplSubstF(v.ms[i].t, m, bug)]])
+      \* SubclassValue.substitute_typevars (value.py:1844) = SubclassValue.make (value.py:1930) of the substituted typ, `exactly` kept
+      [] v.k \in {"subclass", "exactly"} ->
+            IF bug = "skip-type-of-generic" /\ v.t.k # "typevar" THEN v
+            ELSE
+            LET t == ImplSubstF(v.t, m, bug)
+            IN CASE t.k = "union" -> ImplUnite([i \in 1..Len(t.ms) |-> [k |-> v.k, t |-> t.ms[i]]])
                  [] t.k = "any" -> Typed("type")
-                 [] t.k \in {"typevar", "typed", "newtype", "generic", "seq"} -> SubclassT(t)
+                 [] t.k \in {"typevar", "typed", "newtype", "generic", "seq", "typeddict", "dictinc", "tdx", "callable", "asynctask"} -> [k |-> v.k, t |-> t]
                  [] OTHER -> AnyT
-      [] v.k = "union" -> IF v.ms = << >> THEN v ELSE ImplUnite([i \in 1..Len(v.ms) |-> ImplSubst(v.ms[i], m)])
+      [] v.k = "union" -> IF v.ms = << >> THEN v ELSE ImplUnite([i \in 1..Len(v.ms) |-> ImplSubstF(v.ms[i], m, bug)])
       \* TypedDictValue.substitute_typevars (value.py:1670): entry types substituted, required / readonly kept
-      [] v.k = "typeddict" -> TD([i \in 1..Len(v.items) |-> [v.items[i] EXCEPT !.t = ImplSubst(@, m)]])
+      [] v.k = "typeddict" -> TD([i \in 1..Len(v.items) |-> [v.items[i] EXCEPT !.t = ImplSubstF(@, m, bug)]])
+      \* ... and the extra-keys type, extra_keys_readonly kept
+      [] v.k = "tdx" -> [v EXCEPT !.items = [i \in 1..Len(v.items) |-> [v.items[i] EXCEPT !.t = ImplSubstF(@, m, bug)]],
+                                  !.extra = [i \in 1..Len(v.extra) |-> ImplSubstF(v.extra[i], m, bug)]]
       \* DictIncompleteValue.substitute_typevars (value.py:1360) / KVPair.substitute_typevars (value.py:1318):
       \* key and value substituted, is_many / is_required kept
-      [] v.k = "dictinc" -> DictInc([i \in 1..Len(v.kvs) |-> [v.kvs[i] EXCEPT !.key = ImplSubst(@, m), !.val = ImplSubst(@, m)]])
+      [] v.k = "dictinc" -> DictInc([i \in 1..Len(v.kvs) |-> [v.kvs[i] EXCEPT !.key = ImplSubstF(@, m, bug), !.val = ImplSubstF(@, m, bug)]])
+      \* CallableValue (value.py:1753) -> Signature.substitute_typevars (signature.py:1762) -> SigParameter (signature.py:461):
+      \* every annotation and the return value; name / kind / default / is_asynq kept (ParamSpec parameters are not in the space)
+      \* "Returning the same object helps the local return value check" (signature.py:1797): if the substituted return value
+      \* and parameters are == the old ones, the ORIGINAL signature is returned
+      [] v.k = "callable" -> LET r == [v EXCEPT !.ps = [i \in 1..Len(v.ps) |-> [v.ps[i] EXCEPT !.t = [j \in 1..Len(@) |-> ImplSubstF(@[j], m, bug)]]],
+                                                !.ret = ImplSubstF(@, m, bug)]
+                             IN IF ImplEq(r, v) THEN v ELSE r
+      \* AnnotatedValue (value.py:2597): the value and every metadata item; Extension.substitute_typevars: the guarded /
+      \* attribute types of ParameterTypeGuard / NoReturnGuard / TypeGuard / TypeIs / HasAttrGuard / HasAttr extensions,
+      \* identity for the others (value.py:2274; CustomCheck.substitute_typevars extensions.py:91)
+      [] v.k = "annotated" -> [v EXCEPT !.t = ImplSubstF(@, m, bug),
+                                        !.md = [i \in 1..Len(v.md) |->
+                                                  IF v.md[i].x \in {"value", "typeguard", "typeis", "paramguard", "noreturnguard", "hasattr", "hasattrguard"}
+                                                  THEN [v.md[i] EXCEPT !.t = ImplSubstF(@, m, bug)] ELSE v.md[i]]]
+      [] v.k = "asynctask" -> [v EXCEPT !.t = ImplSubstF(@, m, bug)]        \* value.py:1725
+      \* KnownValue.substitute_typevars (value.py:654): a literal of a callable object becomes a KnownValueWithTypeVars
+      \* (same object, the map recorded) unless the map is empty
+      [] v.k = "known" -> IF (v.o.c = "type" \/ (v.o.c = "odd" /\ v.o.v \in CallableOdd)) /\ DOMAIN m # {} THEN [k |-> "knowntv", o |-> v.o] ELSE v
+      \* UnpackedValue has no substitute_typevars: Value.substitute_typevars (value.py:168) returns self
       [] OTHER -> v
+ImplSubst(v, m) == ImplSubstF(v, m, "none")
 
 RECURSIVE FreeVars(_)
 FreeVars(v) ==
@@ -41,6 +70,11 @@ FreeVars(v) ==
       [] v.k = "union" -> UNION {FreeVars(v.ms[i]) : i \in 1..Len(v.ms)}
       [] v.k = "typeddict" -> UNION {FreeVars(v.items[i].t) : i \in 1..Len(v.items)}
       [] v.k = "dictinc" -> UNION {FreeVars(v.kvs[i].key) \cup FreeVars(v.kvs[i].val) : i \in 1..Len(v.kvs)}
+      \* wide terms (SubstContexts.tla): every sub-value a Value holds (by the fields of the classes, not by what walk_values yields)
+      [] v.k \in {"exactly", "unpacked", "asynctask"} -> FreeVars(v.t)
+      [] v.k = "tdx" -> UNION ({FreeVars(v.items[i].t) : i \in 1..Len(v.items)} \cup {FreeVars(v.extra[i]) : i \in 1..Len(v.extra)})
+      [] v.k = "callable" -> FreeVars(v.ret) \cup UNION {UNION {FreeVars(v.ps[i].t[j]) : j \in 1..Len(v.ps[i].t)} : i \in 1..Len(v.ps)}
+      [] v.k = "annotated" -> FreeVars(v.t) \cup UNION {FreeVars(v.md[i].t) : i \in 1..Len(v.md)}
       [] OTHER -> {}
 Closed(v) == FreeVars(v) = {}
 
